@@ -1246,6 +1246,8 @@ impl Suite for WireSuite {
                 ("cont-only", Box::new(move |t| json!([{"op":"cont","v":true},{"op":"replytry","p":p(t,0)},{"op":"replytry","p":p(t,1)}]))),
                 ("recont", Box::new(move |t| json!([{"op":"cont","v":true},{"op":"replytry","p":p(t,0)},{"op":"cont","v":false},{"op":"replytry","p":p(t,1)},{"op":"cont","v":true},{"op":"replytry","p":p(t,2)}]))),
                 ("noreply", Box::new(move |_t| json!([]))),
+                ("upgrade", Box::new(move |t| json!([{"op":"upgrade"},{"op":"reply","p":p(t,0)}]))),
+                ("upgrade-noreply", Box::new(move |_t| json!([{"op":"upgrade"}]))),
                 ("err", Box::new(move |t| json!([{"op":"err","name":"org.example.s.Custom","p":p(t,0)}]))),
             ];
             let flagsets: Vec<Vec<&str>> = vec![vec![], vec!["more"], vec!["oneway"], vec!["oneway", "more"], vec!["upgrade"],
@@ -1274,6 +1276,31 @@ impl Suite for WireSuite {
                         });
                     }
                 }
+            }
+        }
+        // an upgraded connection carries arbitrary bytes: line breaks, NULs, what looks like a message — in pieces
+        // that begin and end anywhere
+        {
+            let cfg = &cfgs[1];
+            for fl in [vec!["upgrade"], vec!["upgrade", "oneway"], vec![]] {
+                tok += 1;
+                let t = format!("t{}uz", tok);
+                let mut v = json!({"method":"org.example.s.Run","parameters":{"token": t, "script":[{"op":"upgrade"},{"op":"reply","p":{"token": t}}]}});
+                for f in fl.iter() {
+                    v[*f] = json!(true);
+                }
+                let mut head = serde_json::to_vec(&v).unwrap();
+                head.push(0);
+                let payload: &[u8] = b"alpha\nbravo\r\n\n\ncharlie\0\n{\"method\":\"x.y\"}\0\r\rdelta";
+                let mut total = head.clone();
+                total.extend_from_slice(payload);
+                // every cut inside the payload, as two pieces behind the request
+                for c in 0..=payload.len() {
+                    let chunks = vec![head.clone(), payload[..c].to_vec(), payload[c..].to_vec()];
+                    let chunks: Vec<Vec<u8>> = chunks.into_iter().filter(|c| !c.is_empty()).collect();
+                    cases.push(Case { input: mk_case("feed", cfg, &chunks, &total), tags: vec!["upgraded-payload-cuts".into(), format!("flags:{}", fl.join("+"))] });
+                }
+                cases.push(Case { input: mk_case("whole", cfg, &[total.clone()], &total), tags: vec!["upgraded-payload-cuts".into()] });
             }
         }
         // registered names in another spelling x flags: unknown interfaces, whatever the flags
